@@ -19,7 +19,7 @@ pub fn plan() -> Plan {
         meta: Meta {
             property: "C08",
             level: "exploration",
-            rule: "history + executable model under real concurrency. N client tasks (8..4000) run puts, deletes, reads and contains on few keys (4..16) against one Storage while a maintenance task closes/creates/restores the active blob, forces updates and requests dumps, blobs rotate by a tiny record limit, and H1 delays are injected inside I/O closures. Every client call is logged at the client boundary: invoke(seq) before, return(seq, result) after, seq from one global atomic counter; every write gets a globally unique increasing timestamp and unique value bytes, so each key is a max-register with unique values. Per-key checker (P-compositional, O(n log n)): a completed read/contains must (1) return a value that was written to that key by an operation invoked before the read returned (byte equality), (2) be no older than every write/delete acknowledged before the read was invoked, (3) never go backwards with respect to reads that returned before it was invoked; a share of runs uses tied timestamps with the weaker rule 'value among the candidates with an acceptable timestamp'. At quiescence (all clients done + worker barrier) read/contains of every key equal the max-timestamp acknowledged operation; after close every blob file is parsed independently: records contiguous to EOF, header and data checksums valid, blob_offset == position, and the multiset of puts on disk == the multiset of acknowledged puts (no loss, no duplication, no interleaving). Deadlock monitor (timing-free): 'client operations pending, no operation completed, zero I/O in flight and no file operation during >=160 samples over 8 s' is reported as a deadlock with the pending operations. Non-trivial = run with >=2 blobs or >=64 clients; distinct = hash of the per-key completion order (distinct interleavings observed).",
+            rule: "history + executable model under real concurrency. N client tasks (8..4000) run puts, deletes, reads and contains on few keys (4..16) against one Storage while a maintenance task closes/creates/restores the active blob, forces updates and requests dumps, blobs rotate by a tiny record limit, and H1 delays are injected inside I/O closures. Every client call is logged at the client boundary: invoke(seq) before, return(seq, result) after, seq from one global atomic counter; every write gets a globally unique increasing timestamp and unique value bytes, so each key is a max-register with unique values. Per-key checker (P-compositional, O(n log n)): a completed read/contains must (1) return a value that was written to that key by an operation invoked before the read returned (byte equality), (2) be no older than every write/delete acknowledged before the read was invoked, (3) never go backwards with respect to reads that returned before it was invoked; a share of runs uses tied timestamps with the weaker rule 'value among the candidates with an acceptable timestamp'. At quiescence (all clients done + worker barrier) read/contains of every key equal the max-timestamp acknowledged operation; after close every blob file is parsed independently: records contiguous to EOF, header and data checksums valid, blob_offset == position, and the multiset of puts on disk == the multiset of acknowledged puts (no loss, no duplication, no interleaving), and blobs_count() / records_count() taken at quiescence equal the number of blob files / records in them. Deadlock monitor (timing-free): 'client operations pending, no operation completed, zero I/O in flight and no file operation during >=160 samples over 8 s' is reported as a deadlock with the pending operations. Non-trivial = run with >=2 blobs or >=64 clients; distinct = hash of the per-key completion order (distinct interleavings observed).",
             assumptions: vec!["schedules are those the OS and tokio produced in this run, widened by injected delays; counted, not enumerated", "TSan/ASan builds of the same workload are part of the thorough tier (tools/san.sh)"],
         },
         shards: 16,
@@ -520,6 +520,9 @@ async fn run(dir: std::path::PathBuf, cfg: Cfg, rc: RunCfg, seed: u64) -> RunOut
             return out;
         }
     }
+    // accounting at quiescence, compared with the files after close (close only dumps indexes)
+    let acct_blobs = s.blobs_count().await as u64;
+    let acct_records = s.records_count().await as u64;
     let s = match Arc::try_unwrap(s) {
         Ok(s) => s,
         Err(_) => {
@@ -581,6 +584,14 @@ async fn run(dir: std::path::PathBuf, cfg: Cfg, rc: RunCfg, seed: u64) -> RunOut
     }
     if dir.join("corrupted").exists() {
         out.violation = Some(("blob-quarantined".into(), "a blob was quarantined during a fault-free concurrent run".into()));
+        return out;
+    }
+    if acct_blobs != out.blobs {
+        out.violation = Some(("quiescent-accounting/blobs_count-differs-from-files".into(), format!("at quiescence blobs_count() = {} but the work dir holds {} blob files (blobs the storage does not know: they re-appear as extra blobs after a restart)", acct_blobs, out.blobs)));
+        return out;
+    }
+    if acct_records != out.records_on_disk {
+        out.violation = Some(("quiescent-accounting/records_count-differs-from-files".into(), format!("at quiescence records_count() = {} but the blob files hold {} records", acct_records, out.records_on_disk)));
         return out;
     }
     for o in ops.iter().filter(|o| o.kind == 0) {
